@@ -550,6 +550,29 @@ pub fn builder_table(_args: &[String], checks: &mut Vec<Check>) {
             Ok(Err(e)) => ck(checks, name, !ok && kind(&e) == "ShapeError", format!("Err({})", kind(&e))),
         }
     }
+    // data of rank 3 and data with ZERO-LENGTH trailing axes (no lane at all): the per-lane array must still have shape (1, trailing dims)
+    for dshape in [vec![4usize, 2, 3], vec![4, 0], vec![4, 0, 2], vec![4, 2, 0], vec![4, 1, 1]] {
+        let dd: ArrayD<f64> = ArrayD::from_shape_fn(IxDyn(&dshape), |ix| (ix[0] * ix[0]) as f64 + ix.slice().iter().sum::<usize>() as f64);
+        let mut good = dshape.clone(); good[0] = 1;
+        let mut cases: Vec<(String, Vec<usize>, bool)> = vec![("ok".into(), good.clone(), true)];
+        let mut w = good.clone(); w[0] = 2; cases.push(("wrong-leading".into(), w, false));
+        let mut w = good.clone(); w[0] = dshape[0]; cases.push(("leading-like-data".into(), w, false));
+        let mut w = good.clone(); let l = w.len() - 1; w[l] += 1; cases.push(("last-axis+1".into(), w, false));
+        let mut w = good.clone(); w[1] += 2; cases.push(("first-trailing+2".into(), w, false));
+        if good.len() == 3 && good[1] != good[2] { let mut w = good.clone(); w.swap(1, 2); cases.push(("trailing-swapped".into(), w, false)); }
+        cases.push(("rank-1".into(), good[..good.len() - 1].to_vec(), false));
+        let mut w = good.clone(); w.push(1); cases.push(("rank+1".into(), w, false));
+        for (nm, bshape, ok) in cases {
+            let b: ArrayD<RowBoundary<f64>> = ArrayD::from_elem(IxDyn(&bshape), RowBoundary::Natural);
+            let r = catch_unwind(AssertUnwindSafe(|| Interp1DBuilder::new(dd.clone()).x(x.clone()).strategy(CubicSpline::new().boundary(BoundaryCondition::Individual(b.clone()))).build().map(|_| ())));
+            let name = format!("C10:boundary-shape[data={dshape:?},{nm}]");
+            match r {
+                Err(_) => ck(checks, name, false, "panic".into()),
+                Ok(Ok(())) => ck(checks, name, ok, "accepted".into()),
+                Ok(Err(e)) => ck(checks, name, !ok && kind(&e) == "ShapeError", format!("Err({})", kind(&e))),
+            }
+        }
+    }
     for n in [3usize, 4, 5] {
         for lane_bad in [None, Some(0usize), Some(1), Some(2)] {
             let xs = Array1::from((0..n).map(|i| i as f64 * 1.25).collect::<Vec<_>>());
